@@ -5,10 +5,11 @@ Property theorems only (helper lemmas: `Proofs/TumblingLate`, `Proofs/WatermarkB
 and every op sequence (arrival orders, bursts with undelivered watermarks, far-future and
 timestamp-less rows, all interleavings of Add with ticker and trigger passes).
 "Inside the allowance" is read per window: the current watermark is below window_end + ALLOWEDLATENESS.
-The sliding window's late-update path is not modelled (its target is chosen by Go map iteration).
+For overlapping (sliding) windows a late row re-delivers every open triggered window that contains it.
 -/
 import SsqlVerif.Proofs.WatermarkBound
 import SsqlVerif.Proofs.TumblingHist
+import SsqlVerif.Proofs.SlidingLate
 import SsqlVerif.Generated.Facts
 set_option autoImplicit false
 
@@ -131,6 +132,27 @@ theorem sliding_no_early_fire (size slide ooo : Int) (hs : 0 < size) (hl : 0 < s
     have h2 := (hh.hshape e he).2.1
     exact ⟨y, hy, by omega⟩
 
+/-- **Sliding late update (ALLOWEDLATENESS > 0).** Every result an Add produces is the re-delivery of
+an open triggered window that contains the (late) row — same interval, the window's previous
+contents first, then rows of the interval not yet in them, the late row included — … -/
+theorem sliding_late_update_contents (s : SlidingLate.SWL) (r : Tumbling.Row) (now : Int) :
+    ∀ e ∈ (SlidingLate.stepAdd s r now none).2, ∃ f ∈ s.fired,
+      e.kind = .late ∧ e.start = f.start ∧ e.stop = f.start + s.base.size ∧
+      Tumbling.inSlot s.base.size f.start r = true ∧
+      Tumbling.stillOpen (Sliding.wmAfter s.base r now).cur f = true ∧
+      Sliding.lateNow s.base r now = true ∧ 0 < s.lateness ∧
+      (∃ extra, e.rows = f.snap ++ extra ∧
+        (∀ x ∈ extra, Tumbling.inSlot s.base.size f.start x = true ∧ x ∉ f.snap) ∧ (r ∈ f.snap ∨ r ∈ extra)) :=
+  SlidingLate.late_emissions s r now none
+
+/-- … and every open triggered window that contains a late row is re-delivered. -/
+theorem sliding_every_open_window_redelivered (s : SlidingLate.SWL) (r : Tumbling.Row) (now : Int)
+    (hl : Sliding.lateNow s.base r now = true) (hlat : 0 < s.lateness)
+    (f : Tumbling.Fired) (hf : f ∈ s.fired) (hin : Tumbling.inSlot s.base.size f.start r = true)
+    (hop : Tumbling.stillOpen (Sliding.wmAfter s.base r now).cur f = true) :
+    ∃ e ∈ (SlidingLate.stepAdd s r now none).2, e.start = f.start ∧ e.kind = .late :=
+  SlidingLate.every_open_window_redelivered s r now none hl hlat f hf hin hop
+
 end sliding
 
 /-! ### session -/
@@ -141,7 +163,7 @@ theorem session_no_early_delivery (timeout ooo lateness : Int) (ht : 0 < timeout
     (hni : ∀ op ∈ ops, NoIdle op) :
     ∀ e ∈ (run (init timeout ooo lateness) ops).2, e.late = false → ∃ m ∈ ingested ops, e.stop + ooo ≤ m := by
   intro e he hl
-  obtain ⟨_, y, hy, hey⟩ := run_firsts (init timeout ooo lateness) ops (inv_init timeout ooo lateness ht) e he hl
+  obtain ⟨_, _, y, hy, hey⟩ := run_firsts (init timeout ooo lateness) ops (inv_init timeout ooo lateness ht) e he hl
   have hw := run_wm (init timeout ooo lateness) ops [] (by intro c h; cases h) (by intro m h; cases h) hni
   obtain ⟨m, hm, hle⟩ := hw.1 y hy
   rw [hw.2.2] at hle
@@ -149,13 +171,10 @@ theorem session_no_early_delivery (timeout ooo lateness : Int) (ht : 0 < timeout
 
 theorem session_drop_only_if_late (w : SWin) (k : Key) (r : Row) (now : Int) (h : fate w k r now = .lateDrop) :
     lateNow w r now = true := by
-  unfold fate at h
-  split at h
-  · assumption
-  · unfold onTimeFate at h
-    split at h
-    · cases h
-    · unfold headFate at h; split at h <;> cases h
+  by_cases hl : lateNow w r now = true
+  · exact hl
+  · have hl' : lateNow w r now = false := by simpa using hl
+    rcases fate_ontime w k r now hl' with ⟨h', _⟩ | ⟨t, os, h', _⟩ <;> rw [h'] at h <;> cases h
 
 /-- a late row is absorbed only by a triggered session of its own key that contains it and is still
 inside its allowance; the re-delivery carries that session's rows followed by the late row -/
@@ -182,9 +201,7 @@ theorem session_late_update (w : SWin) (k : Key) (r : Row) (now : Int) (t : Trig
       · cases h
     · cases h
   · unfold onTimeFate at h
-    split at h
-    · cases h
-    · unfold headFate at h; split at h <;> cases h
+    split at h <;> cases h
 
 end session
 
